@@ -16,7 +16,7 @@ CHECKS = {
          "kanziref/v2 (snapshot of the pinned commit, under /verif/ref) and the current tree are linked into the same binary. 89 corpus streams written by the reference encoder (every transform, every entropy codec, checksum 0/32/64, hint, small blocks, headerless, > 4 MiB BWT, long runs / long distances) must decode with the current Reader (jobs 1 and 3) to their recorded SHA-256; 600 (quick) / 20 000 (thorough) generated (config, data) pairs on which the reference round-trips must satisfy current.Read(reference.Write(x)) == x; XXHash32/64 are compared on 3 000 random buffers.",
          "Only bitstream version 6 as written by the snapshot; pairs on which the reference itself fails are skipped (counted in the evidence).", "DESIGN.md §3 C10"),
  "C18": ("exploration", "race detector (go build -race) over concurrent multi-pipeline stress with hook-perturbed scheduling and varied GOMAXPROCS; race log parsed, de-duplicated and attributed; outputs compared with isolated runs",
-         "The harness and /repo/v2 are built with -race -tags verif. 36 pipelines covering all 19 transforms and 9 entropy codecs, jobs 1..16, a > 4 MiB BWT block decoded with several jobs (parallel inverse BWT), listeners with verbosity 5, several UTF/TEXT pipelines side by side, run 16 at a time for 2 (quick) / 16 (thorough) rounds with GOMAXPROCS alternating between all CPUs, 4 and 2, yields/sleeps injected at the hand-off hooks. Every stream and decoded output is compared with the isolated run; GORACE halt_on_error=0 log is parsed and any report with a frame in kanzi-go/v2 is a violation.",
+         "The harness and /repo/v2 are built with -race -tags verif. 36 pipelines covering all 19 transforms and 9 entropy codecs, jobs 1..16, a > 4 MiB BWT block decoded with several jobs (parallel inverse BWT), listeners with verbosity 5, several UTF/TEXT pipelines side by side, run 16 at a time for 2 (quick) / 16 (thorough) rounds with GOMAXPROCS alternating between all CPUs, 4 and 2, yields/sleeps injected at the hand-off hooks; then 38 cold-start processes (one per transform, entropy codec and level chain) in which the FIRST use of the codec is made by 4 goroutines at once (lazy initialisers, pools), with expected streams computed by the parent. Every stream and decoded output is compared with the isolated run; GORACE halt_on_error=0 log is parsed and any report with a frame in kanzi-go/v2 is a violation.",
          "The race detector sees executed interleavings only.", "DESIGN.md §3 C18"),
  "C04": ("exploration", "runtime monitor: byte-equality oracle at the sink across job counts, Write partitions and hook-driven schedules (random yields/sleeps and controlled PCT priority schedules)",
          "For 11 configurations (incl. the CLI level chains that consult per-block data-type hints, BWT, ROLZX, TPAQ, CM) and multi-batch inputs whose blocks have heterogeneous content, the sink bytes of every variant - jobs 2..64, four Write partitions, 4 hint modes, schedules none/free/PCT - are compared with the jobs=1 single-Write run. About 660 (quick) / 8 000 (thorough) variant runs; evidence reports the number of distinct hand-off orders observed. Exploration: schedules are sampled.",
@@ -25,25 +25,25 @@ CHECKS = {
          "Valid streams (6 codec pairs, 1..130 blocks incl. > 63, partial last batch, with/without hint) are decoded with jobs {1,2,3,4,8,64} under PCT and perturbed schedules and must equal the original; streams whose block k is damaged / has a forged stored length are decoded while the controller places the neighbours before their wait, spinning, inside the shared read or past their publish: everything returned, also after the error, must be a prefix of the original and the failure must be reported. About 11 000 (quick) executions.",
          "Same trusted base as C07.", "DESIGN.md §3 C05"),
  "C07": ("exploration", "runtime monitor: controlled cooperative scheduler on the protocol step hook (exhaustive DFS for 2 tasks, preemption-bounded DFS for 3-4, PCT for 5-16) with an online trace automaton and logical stuck detection; fault injection at every (task, step); offline porcupine linearizability check of free-running histories against a ticket-lock-with-cancel model",
-         "The step hook blocks every block task at every protocol step (also each spin iteration) and a controller releases exactly one task at a time, so the recorded event order is the execution order of the protocol steps. All interleavings of one batch of 2 tasks are enumerated (both sides: no fault, every (task, step) injected failure, damaged / forged blocks, end-of-stream and skipped-block outcomes); 3-4 tasks with preemption bound 1-2, 5-16 tasks with PCT; sink failures inside the shared section. The automaton checks mutual exclusion, increasing block order, the counter value at acquisition, no acquisition after a cancel, every task exits (a state where all live tasks spin on an unchanged counter is a deadlock - no clocks), and that a failed task makes the API call return an error. 400 free-running histories with random yields are checked with porcupine. Exhaustive only for the 2-task single-batch scenarios listed in the evidence.",
+         "The step hook blocks every block task at every protocol step (also each spin iteration) and a controller releases exactly one task at a time, so the recorded event order is the execution order of the protocol steps. All interleavings of one batch of 2 tasks are enumerated (both sides: no fault, every (task, step) injected failure, damaged / forged blocks, end-of-stream and skipped-block outcomes); 3-4 tasks with preemption bound 1-2, 5-16 tasks with PCT; sink failures inside the shared section. The automaton checks mutual exclusion, increasing block order, the counter value at acquisition, no acquisition after a cancel, every task exits (a state where all live tasks spin on an unchanged counter is a deadlock - no clocks), and that a failed task makes the API call that encloses its batch return an error (encode side: the very Write or Close call; decode side: some Read call). 400 free-running histories with random yields are checked with porcupine. Exhaustive only for the 2-task single-batch scenarios listed in the evidence.",
          "Atomicity is at hook-step granularity in controlled mode. Trusts harness/sched (scheduler, monitor, ~600 lines) and the 12 hook call sites in v2/io/CompressedStream.go.", "DESIGN.md §3 C07"),
  "C02": ("exploration", "runtime monitor: prefix oracle over ALL bytes returned (also after an error) on streams damaged only inside block payloads located by the independent container parser",
          "13 checksummed streams (codec pairs, checksum 32/64, headerless, 1 MiB blocks) are damaged inside block payloads only: every payload bit of two small NONE/NONE streams (exhaustive), plus ~150 (quick) random bit flips / byte substitutions / swaps / zeroed runs per stream, in one or several blocks, biased to the in-block header, the stored checksum and the last bytes; stored checksums are also exchanged between blocks (content differs from what was hashed). The reader (jobs 1-4, varying buffer sizes) keeps calling Read up to 64 times after the first error; the concatenation of everything returned must be a prefix of the original and clean EOF implies equality.",
          "32-bit checksums legitimately pass 2^-32 of random damage (< 10^-4 per run). Whole self-consistent payloads exchanged between blocks are not generated (the format hashes content only).", "DESIGN.md §3 C02"),
  "C06": ("exploration", "runtime monitor: differential oracle (chunked vs all-at-once I/O) at the stream API and lock-step bit-vector model over chunked sources at the bitstream API",
-         "The same valid streams are decoded through io.Readers delivering short reads (fixed 1..262145-byte chunks, random sizes, pipe-like, data+EOF together), with arbitrary Read buffer length sequences (incl. 0/1), and the same data is written with arbitrary Write partitions; results must equal the all-at-once run byte for byte. 4 000 (quick) bit-level programs are replayed on DefaultInputBitStream over chunked sources against the bit-vector model. Exploration over sampled partitions.",
+         "The same valid streams are decoded through io.Readers delivering short reads (fixed 1..262145-byte chunks, random sizes, pipe-like, data+EOF together), with arbitrary Read buffer length sequences (incl. 0/1), and the same data is written with arbitrary Write partitions; results must equal the all-at-once run byte for byte. 4 000 (quick) bit-level programs are replayed on DefaultInputBitStream over chunked sources against the bit-vector model. Tool level: the built binary decodes the same archive file->file, file->pipe and from a pipe fed in pieces of 333..65536 bytes, for block size x jobs combinations whose batches do / do not end on its 32 KiB read size; every way must restore the original with exit 0. Exploration over sampled partitions.",
          "Sources obey the io.Reader contract and never return (0, nil).", "DESIGN.md §3 C06"),
  "C08": ("fault_enumeration", "runtime monitor: fault-injecting io.WriteCloser / io.ReadCloser, fault index enumerated exhaustively over the calls of the fault-free run",
-         "For each recipe x job count the fault-free run counts the sink Write / Close and source Read calls; the fault is then injected at every call index k = 1..N in modes transient, transient+retry-Close, sticky, partial write, error-with-data. Oracle: an injected fault surfaces as a non-nil error of some call, no panic escapes, Close == nil implies the sink decodes to exactly the accepted bytes, Read output is always a prefix of the original and clean EOF implies completeness. Exhaustive over k for the listed recipes, which include streams whose end marker lands exactly on the bitstream flush threshold.",
+         "For each recipe x job count the fault-free run counts the sink Write / Close and source Read calls; the fault is then injected at every call index k = 1..N in modes transient, transient+retry-Close, sticky, sticky with a client that keeps writing, partial write, error-with-data; the source side is enumerated again with short-read sources and with six block-range variants per recipe (faults while skipped blocks are consumed). Oracle: an injected fault surfaces as a non-nil error of some call, no panic escapes, Close == nil implies the sink decodes to exactly the accepted bytes, Read output is always a prefix of the original and clean EOF implies completeness. Exhaustive over k for the listed recipes, which include streams whose end marker lands exactly on the bitstream flush threshold.",
          "A source failure on a read-ahead issued after every byte was delivered (complete, correct data then EOF) is counted but not treated as a swallowed error.", "DESIGN.md §3 C08"),
  "C09": ("exploration", "runtime monitor: result oracle over every cut position of small valid streams (exhaustive over cuts) and boundary-focused cuts of large ones",
-         "17 small streams (empty input, sub-16-byte blocks, multi-block, checksum 0/32/64, headerless, hinted) are cut at every byte position 0..len-1 and decoded with jobs 1 and 3 (about 135 000 decodes); 3 large streams are cut around every block boundary computed by the independent container parser and at random positions. Reading must end with an error, never clean EOF.",
+         "17 small streams (empty input, sub-16-byte blocks, multi-block, checksum 0/32/64, headerless, hinted) are cut at every byte position 0..len-1 and decoded with jobs 1 and 3 (about 135 000 decodes); 3 large streams are cut around every block boundary computed by the independent container parser and at random positions; 4 (quick) / 6 streams of 130-260 small blocks are cut -1..+9 bytes around every block header (all 64 alignments of a header inside a 64-bit word are observed and counted in the evidence). Reading must end with an error, never clean EOF.",
          "Exhaustive only over the cut positions of the listed streams; the set of streams is a sample.", "DESIGN.md §3 C09"),
  "C11": ("exploration", "runtime monitor: slice oracle over all block ranges of small streams, with the payloads of skipped blocks corrupted",
-         "For streams of 1..12 blocks (partial last block, with/without hint, 5 codec pairs) every range 1 <= from <= to <= nb+3, from-only and to-only, is decoded with decoder jobs {1,2,3,4,8,64}; in half of the cases every block outside the range has its payload and stored checksum damaged (length prefix intact), so decoding a skipped block would surface. Oracle: bytes == orig[(from-1)*B : min((to-1)*B, len)], no error.",
+         "For streams of 1..12 blocks (partial last block, with/without hint, 5 codec pairs) every range 1 <= from <= to <= nb+3, from-only and to-only, is decoded with decoder jobs {1,2,3,4,8,64}; in half of the cases every block outside the range has its payload and stored checksum damaged (length prefix intact), so decoding a skipped block would surface; the source hands the stream over at once or in short reads of 7..1021 bytes, and three streams exceed the 256 KiB input buffer several times (refills inside skipped blocks). Oracle: bytes == orig[(from-1)*B : min((to-1)*B, len)], no error.",
          "Exhaustive over ranges for the listed streams only.", "DESIGN.md §3 C11"),
- "C15": ("exploration", "runtime monitor: exhaustive name<->type round trip + byte-equality of streams written with spelling variants",
-         "GetName(GetType(x)) is compared with the canonical name for all chains of length <= 3 over the 19 transform names and the 9 entropy names in 4 spellings (exhaustive, ~30 000 lookups); every spelling variant of every single codec, of variant-bearing pairs and of random chains <= 8 with NONE fillers must give the byte-identical stream as the upper-case spelling and round-trip through NewReader / NewHeaderlessReader on data that exercises the variant-specific code.",
+ "C15": ("exploration", "runtime monitor: exhaustive name<->type round trip + byte-equality of streams written with spelling variants + cross-decoding with the vendored reference (header types name the variants really used)",
+         "GetName(GetType(x)) is compared with the canonical name for all chains of length <= 3 over the 19 transform names and the 9 entropy names in 4 spellings (exhaustive, ~30 000 lookups); every spelling variant of every single codec, of variant-bearing pairs and of random chains <= 8 with NONE fillers must give the byte-identical stream as the upper-case spelling and round-trip through NewReader / NewHeaderlessReader on data that exercises the variant-specific code. Variant actually used: for every ordered pair of transforms and every triple over the families whose variant is chosen through the shared parameter map (lz, sbrt, pack/dna, rolz, text, ~1 000 chains) the stream written by the current tree must be decoded to the original by the vendored reference decoder and vice versa.",
          "Stream equality is judged against the canonical spelling on the same tree (the property is an equality of two runs).", "DESIGN.md §3 C15"),
  "C17": ("exploration", "runtime monitor: reference state machine stepped alongside random Writer/Reader call programs",
          "3 000 (quick) / 40 000 (thorough) random call programs (Write/Read with lengths 0, 1, B-1, B, B+1, jobs*B ..., Close repeated at any point, GetWritten/GetRead, listeners) are executed step by step against a 40-line model: Close idempotent, calls after Close fail without side effects, counters monotone, GetWritten == sink bytes after Close, final stream decodes to exactly the accepted bytes, empty Writer gives a valid empty stream.",
@@ -52,10 +52,10 @@ CHECKS = {
          "About 2 500 (quick) / 40 000 (thorough) generated (configuration, data shape, size, hint mode, Write partition, decoder job count) cases are pushed through the real Writer and Reader in child processes; the oracle is bytes-in == bytes-out followed by io.EOF, no error after construction, and an independent parse of the produced container (block count, header fields, end marker). The recover hook names the faulting function of any swallowed panic; the normalize hook checks every histogram the codecs produce in situ. Exploration: the input/config space is sampled with a covering design, not enumerated.",
          "Trusts harness/container (independent parser), harness/gen, and the hook files v2/io/verif_on.go, v2/entropy/verif_on.go. Largest block run: 4 MiB+16 quick, 160 MiB thorough; 1 GiB blocks are not run.", "DESIGN.md §3 C01"),
  "C12": ("exploration", "runtime monitor: result + bit-consumption oracle (sentinel, Written()/Read() counters) on the entropy codec API; in-situ NormalizeFrequencies hook",
-         "Each of the 9 entropy codecs encodes generated blocks (lengths 0..4 MiB+1 straddling every chunk size, 17 shapes incl. the frequency-scaling stress families) into a real bitstream after a byte-aligned prefix, followed by a 64-bit sentinel; decoding must return the block, consume exactly the bits written and leave the sentinel readable; a second codec instance is run back-to-back in the same bitstream. Exploration over sampled blocks.",
-         "Context map built like the stream layer's (entropy, blockSize, size, bsVersion 6). Heavy coders capped at 20 KB (quick) / 1 MiB (thorough).", "DESIGN.md §3 C12"),
+         "Each of the 9 entropy codecs encodes generated blocks (lengths 0..4 MiB+1 straddling every chunk size, the 64 MiB chunking threshold of the bit-wise coders (2^26-1, 2^26, 2^26+9), 17 shapes incl. the frequency-scaling stress families) into a real bitstream after a byte-aligned prefix, followed by a 64-bit sentinel; decoding must return the block, consume exactly the bits written and leave the sentinel readable; a second codec instance is run back-to-back in the same bitstream. Exploration over sampled blocks.",
+         "Context map built like the stream layer's (entropy, blockSize, size, bsVersion 6). Heavy coders capped at 20 KB (quick) / 1 MiB (thorough) except for the 64 MiB threshold cases (CM in quick, all three in thorough).", "DESIGN.md §3 C12"),
  "C13": ("exploration", "runtime monitor: forward/inverse oracle with pipeline-faithful buffers and contexts, in isolated child processes (panic site attribution)",
-         "Each of the 19 transforms runs Forward on generated blocks with the parameter map the Writer builds - fresh, after the block-magic hint, or after a real earlier stage ran on the same map - into a destination of exactly MaxEncodedLen (or with slack); the monitor checks no fault, output <= MaxEncodedLen, input untouched on decline, and Inverse into the decompressor's buffer size restores the block. Children isolate faults from helper goroutines. Exploration over ~15 000 (quick) calls.",
+         "Each of the 19 transforms runs Forward on generated blocks with the parameter map the Writer builds - fresh, after the block-magic hint, or after a real earlier stage ran on the same map - into a destination of exactly MaxEncodedLen (or with slack); the monitor checks no fault, output <= MaxEncodedLen, input untouched on decline, and Inverse into the decompressor's buffer size (for the tightest legal block size, and for block sizes 2..200 times the block: a short last block) restores the block. Children isolate faults from helper goroutines. Exploration over ~15 000 (quick) calls.",
          "Data-type hints are produced only by real stages or by the magic classification re-implemented from internal/Magic.go; internal.DataType values are built by reflection from a leaked value.", "DESIGN.md §3 C13"),
  "C16": ("exploration", "runtime monitor: post-condition oracle on direct calls (exhaustive small histograms + directed families + random) and in-situ hook",
          "entropy.NormalizeFrequencies is called on all histograms with <= 3 present symbols and counts <= 24 (quick) / 40 (thorough) x 9 scales (exhaustive part), on directed k-rare + m-dominant / flat / ramp families and on 10^5 (quick) / 2x10^6 (thorough) random histograms; the oracle checks sum == scale, present symbols > 0, absent == 0, returned size and increasing alphabet. Exploration (the exhaustive part covers only the small-alphabet sub-space).",
